@@ -3,5 +3,5 @@
 set -e
 cd "$(dirname "$0")"
 R="$(pwd)"
-export PYTHONPATH=/repo:$R/harness PYTHONHASHSEED=0 PYTHONDONTWRITEBYTECODE=1
+export PYTHONPATH="${VERIF_REPO:-/repo}":$R/harness PYTHONHASHSEED=0 PYTHONDONTWRITEBYTECODE=1
 exec /venv/bin/python -u harness/check.py setup
